@@ -146,13 +146,21 @@ fn check_sprite(ctx: &Ctx, i: u64, overlap_pairs: &Mutex<HashSet<(String, String
         match load(&bytes) {
             Err(e) => res.violations.push(Violation::new("nondeterministic|reload-failed", format!("load {} of the same bytes failed: {}", n + 2, e)).with_input(&bytes)),
             Ok(other) => {
-                for (k, p) in probes.iter().enumerate() {
+                // each fresh instance is touched in a different order from its very first call on,
+                // so a result that depends on which accessor ran first (lazy caches) shows up
+                let mut order: Vec<usize> = (0..probes.len()).collect();
+                rng.shuffle(&mut order);
+                if n % 2 == 1 {
+                    order.reverse();
+                }
+                for k in order {
+                    let p = &probes[k];
                     if !p.cross_load() {
                         continue;
                     }
                     res.leaves += 1;
                     if p.eval(&other) != reference[k] {
-                        res.violations.push(Violation::new(format!("nondeterministic|reload|{}", normalise_digits(&p.key())), format!("probe {} differs between two loads of the same bytes", p.key())).with_input(&bytes).with_extra(json!({"probe": p.key(), "model": sprite_summary(&sp)})));
+                        res.violations.push(Violation::new(format!("nondeterministic|reload|{}", normalise_digits(&p.key())), format!("probe {} differs between two loads of the same bytes probed in different call orders", p.key())).with_input(&bytes).with_extra(json!({"probe": p.key(), "model": sprite_summary(&sp)})));
                         return res;
                     }
                 }
